@@ -1,15 +1,21 @@
 package yqlib
 
+import "container/list"
+
 func splitDocumentOperator(_ *dataTreeNavigator, context Context, _ *ExpressionNode) (Context, error) {
 	log.Debugf("splitDocumentOperator")
 
+	// the results are documents of their own: copies, so that the nodes they are made from keep their
+	// place (parent, document index) in the document they belong to
+	var results = list.New()
 	var index uint
 	for el := context.MatchingNodes.Front(); el != nil; el = el.Next() {
-		candidate := el.Value.(*CandidateNode)
+		candidate := el.Value.(*CandidateNode).Copy()
 		candidate.SetDocument(index)
 		candidate.SetParent(nil)
+		results.PushBack(candidate)
 		index = index + 1
 	}
 
-	return context, nil
+	return context.ChildContext(results), nil
 }
